@@ -293,13 +293,17 @@ def _poison(np, seed):
     """A legal np.empty: the content of a fresh buffer is unspecified; fill it with seed-dependent junk."""
     orig = np.empty
     rng = np.random.RandomState(seed)
+    busy = [False]
 
     def empty(shape, dtype=float, *a, **k):
         arr = orig(shape, dtype, *a, **k)
-        if arr.dtype.kind == "f":
+        if busy[0] or arr.dtype.kind not in "fc" or arr.size == 0:
+            return arr
+        busy[0] = True          # numpy itself calls np.empty while drawing the junk
+        try:
             arr[...] = rng.uniform(-1e3, 1e3, size=arr.shape)
-        elif arr.dtype.kind == "c":
-            arr[...] = rng.uniform(-1e3, 1e3, size=arr.shape)
+        finally:
+            busy[0] = False
         return arr
     return orig, empty
 
